@@ -20,7 +20,7 @@ RULE = (
     "(db float conversion into the model's default unit, or unchanged; amounts 2.5, 3, 0 and 0.0, length / time / temperature incl. degC and degF into K) and the exact sequence of on_current / "
     "on_unit_changed notifications (re-selecting the current system may or may not notify; after removing the current "
     "system any registered system or none may be selected); a rejected call leaves the model-visible state and the "
-    "notification log untouched. Mappings may name a unit of another quantity type (they are taken as given): converting into such a unit, or from a unit that is not a unit of the category, raises. One manager used while the shipped and a project database are current in turn (either order) converts with the database that is current at each call. Categories of a mapped quantity type that the system does not map (depth, diameter) come back unchanged. Non-trivial = history with a removal or a default-unit change after a change of the "
+    "notification log untouched. Mappings may name a unit of another quantity type (they are taken as given): converting into such a unit, or from a unit that is not a unit of the category, raises. One manager used while the shipped and a project database are current in turn (either order) converts with the database that is current at each call. Categories of a mapped quantity type that the system does not map (depth, diameter) come back unchanged. Callers also choose ids of the form GetNewId hands out, and add systems under the id offered. Non-trivial = history with a removal or a default-unit change after a change of the "
     "current system; key = the history."
 )
 ASSUMPTIONS = [
@@ -82,6 +82,9 @@ def run_history(ctx, seq, fail, db):
     flags = set()
     cur_changed = False
     for step, op in enumerate(seq):
+        if op[0] == "addnew":
+            # a system added under the id the manager offers (recorded in the case as the concrete call)
+            op = seq[step] = ["add", mgr.GetNewId(), op[1]]
         exp_log = []
         reject = False
         maybe = []  # optional notifications
@@ -265,7 +268,8 @@ def run_history(ctx, seq, fail, db):
 
 
 def gen_op():
-    ids = st.sampled_from(["a", "b", "c"])
+    # (ids of the very form GetNewId hands out are a caller's to choose as well)
+    ids = st.sampled_from(["a", "b", "c", "a", "b", "system 1", "system 2", "system 3"])
     cats = st.sampled_from(["length", "time", "length", "time", "temperature"])
     # (one foreign default unit per category: mappings are taken as given)
     units = {"length": ["m", "cm", "km", "ft", "g"], "time": ["s", "min", "h", "kg"], "temperature": ["K", "degF", "degC", "degR"]}
@@ -277,6 +281,7 @@ def gen_op():
         st.sampled_from(OPS),
         st.tuples(st.just("add"), ids, mapping).map(list),
         st.tuples(st.just("rm"), ids).map(list),
+        st.tuples(st.just("addnew"), mapping).map(list),
         st.tuples(st.just("cur"), st.one_of(ids, st.none())).map(list),
         cats.flatmap(lambda c: st.tuples(st.just("setu"), ids, st.just(c), st.sampled_from(units[c])).map(list)),
         st.tuples(st.just("rmcat"), ids, cats).map(list),
@@ -338,6 +343,19 @@ def run_shard(spec, ctx):
                     if total % 9001 == 0 and len(ctx.samples) < 4:
                         ctx.sample({"ops": seq})
 
+            if spec["i"] == 0:
+                # ids of the form GetNewId hands out, chosen by the caller, in every order and with removals in
+                # between: the id offered next is never one in use, and a system added under it is accepted
+                names = ["system 1", "system 2", "system 3"]
+                n_ids = 0
+                for r in (1, 2, 3):
+                    for adds in itertools.permutations(names, r):
+                        for rm in [None] + list(adds):
+                            seq = [["add", i, "len"] for i in adds] + ([["rm", rm]] if rm else [])
+                            seq += [["addnew", "both"], ["addnew", "none"]]
+                            run_history(ctx, seq, ctx.record, db)
+                            n_ids += 1
+                ctx.cls("histories_with_caller_chosen_numbered_ids", n_ids)
             for L in range(1, depth + 1):
                 run_all(L)
             ctx.exhaustive["manager histories over the %d-call alphabet" % nops] = "all of length <= %d" % depth
